@@ -397,7 +397,7 @@ func (g *gen) genField(fieldType types.Type, thisField, thatField string) error 
 		p.In()
 		p.P("if cap(%s) >= len(%s) {", thatField, thisField) // cap
 		p.In()
-		if !hasDeepCopyMethod(fieldType) && !canCopy(typ.Elem()) {
+		if !canCopy(typ.Elem()) {
 			// What lies beyond the length of the destination is not part of it and may share memory with elements that are:
 			// the elements that come into view are copied into as if they were new.
 			p.P("for spare_i := range (%s)[len(%s):len(%s)] {", thatField, thatField, thisField)
